@@ -278,6 +278,11 @@ def decode_type(ctx):
     if fn is None:
         ctx.violation("closure", db.where(ga), "Decode.__getattr__ does not return a function defined for the requested encoding (returns %s): the decoding rules cannot be followed" % [src(r.value) for r in rets_ga])
         return
+    # a closure that only hands its argument and the encoding on to a module-level function: that function is the decoder
+    if len(fn.body) == 1 and isinstance(fn.body[0], ast.Return) and isinstance(fn.body[0].value, ast.Call) and isinstance(fn.body[0].value.func, ast.Name) and db.has("filters." + fn.body[0].value.func.id) \
+            and [src(a_) for a_ in fn.body[0].value.args] == [pn(fn, 0), keyp] and not fn.body[0].value.keywords:
+        fn = db.func("filters." + fn.body[0].value.func.id)
+        keyp = pn(fn, 1)
     x = pn(fn, 0)
     leaves = return_leaves(fn)
     ctx.require(len(leaves) >= 3, "decode has %d alternatives" % len(leaves))
@@ -289,7 +294,7 @@ def decode_type(ctx):
         if t == x:
             kinds.append("str-passthrough")
             ctx.check((isstr, True) in g, "branch:str", db.where(v), "x returned unchanged outside the isinstance(x, str) branch", "str returned as is")
-        elif P.matches(v, "%s(str(%s))" % (fn.name, x)) or P.matches(v, "str(%s)" % x):
+        elif P.matches(v, "%s(str(%s))" % (fn.name, x)) or P.matches(v, "%s(str(%s), %s)" % (fn.name, x, keyp)) or P.matches(v, "str(%s)" % x):
             kinds.append("other")
             ctx.check((isstr, False) in g and (isbytes, False) in g, "branch:other", db.where(v), "decode(str(x)) is not limited to objects that are neither str nor bytes", "other objects: decode(str(x))")
         elif P.matches(v, "str(%s, encoding=%s)" % (x, keyp)) or P.matches(v, "str(%s, %s)" % (x, keyp)) or P.matches(v, "%s.decode(%s)" % (x, keyp)):
